@@ -1,6 +1,7 @@
 //! Implementation-side harness for the correspondence check (Tie B): runs the real
 //! imap-proto / tokio-imap code on generated inputs and prints canonical result lines.
 mod bodystruct;
+mod builder;
 mod mockio;
 mod tags;
 mod util;
@@ -13,6 +14,7 @@ fn main() {
     }
     match args[1].as_str() {
         "tags" => tags::main(&args[2..]),
+        "builder" => builder::main(&args[2..]),
         "bodystruct" => bodystruct::main(&args[2..]),
         c => {
             eprintln!("unknown sub-command {c}");
